@@ -168,5 +168,5 @@ def obligations(tier):
                     for o1 in OPS:
                         if o0 == "discard" and nspaces == 1 and o1 != "send":
                             continue  # nothing left to act on
-                        obs.append(Ob("C08.%s.%s.s%d.%s-%s" % (algo, "inductive" if arb else "fromstart", nspaces, o0, o1), seq_ob(algo, nspaces, npre, nops, arb, (o0, o1), two=(T or not (arb and o1 == "ack"))), shims, enc + cc_enc, bounds="%s congestion state, %d packet number space(s), %d initial sends, operations %s, %s and %d more (send, ACK with 1-2 arbitrary ranges over numbers 0-16 incl. never-sent ones, loss-detection timeout at an arbitrary later time, space discard, reschedule); sizes 0-65535, flags and times symbolic" % ("arbitrary valid" if arb else "initial", nspaces, npre, o0, o1, nops - 2), budget_s=2400 if T else 280, max_decisions=1500, stubs=["QuicRttMonitor -> nondeterministic", "cubic target / cube root -> uninterpreted", "pacer.update_rate -> no-op"]))
+                        obs.append(Ob("C08.%s.%s.s%d.%s-%s" % (algo, "inductive" if arb else "fromstart", nspaces, o0, o1), seq_ob(algo, nspaces, npre, nops, arb, (o0, o1), two=(T or not (arb and o1 == "ack"))), shims, enc + cc_enc, bounds="%s congestion state, %d packet number space(s), %d initial sends, operations %s, %s and %d more (send, ACK with 1-2 arbitrary ranges over numbers 0-16 incl. never-sent ones, loss-detection timeout at an arbitrary later time, space discard, reschedule); sizes 0-65535, flags and times symbolic" % ("arbitrary valid" if arb else "initial", nspaces, npre, o0, o1, nops - 2), budget_s=2400 if T else 480, max_decisions=1500, stubs=["QuicRttMonitor -> nondeterministic", "cubic target / cube root -> uninterpreted", "pacer.update_rate -> no-op"]))
     return obs
